@@ -341,12 +341,9 @@ def zeros(
     samples = int(np.ceil(over_sample_rate * ntmp))
 
     # Generate actual samples, removing duplicates, nonzeros and excess
-    tmpsubs = (
-        np.ceil(
-            np.random.uniform(0, 1, (samples, data.ndims)) * np.array(data.shape),
-        ).astype(int)
-        - 1
-    )
+    tmpsubs = np.floor(
+        np.random.uniform(0, 1, (samples, data.ndims)) * np.array(data.shape),
+    ).astype(int)
 
     if not with_replacement:
         tmpsubs = np.unique(tmpsubs, axis=0)
@@ -385,12 +382,9 @@ def uniform(data: ttb.tensor, samples: int) -> sample_type:
     -------
         Subscripts of samples, values at those subscripts, and weight of samples.
     """
-    subs = (
-        np.ceil(
-            np.random.uniform(0, 1, (samples, data.ndims)) * np.array(data.shape),
-        ).astype(int)
-        - 1
-    )
+    subs = np.floor(
+        np.random.uniform(0, 1, (samples, data.ndims)) * np.array(data.shape),
+    ).astype(int)
     vals = data[subs]
     wgts = (np.prod(data.shape) / samples) * np.ones((samples,))
     return subs, vals, wgts
